@@ -214,6 +214,23 @@ check('C13', 'ppobj',
       'Trusted: TLC; deep copies to observe a table without printing it; fixed record set and field types.',
       'DESIGN.md section 4, C13')
 
+ENGINES['render'] = ('specs/render', ['C10'], 'RenderPurity.tla (histories over a heap with address re-use, palette / enum cache '
+                     'I-spec, Pure / CacheCoherent), RenderJudge.tla (trace acceptor with memo); driver harness/drivers/c10.py, '
+                     'harness/c10_objs.py')
+check('C10', 'render',
+      'TLA+ spec of render histories with heap identity re-use and the cache I-spec (TLC: identity-keyed cache refuted, '
+      'weak-keyed cache pure); TLC-generated histories replayed in one interpreter on real objects; every render event '
+      'judged by a TLC trace acceptor whose memo is seeded from fresh interpreters',
+      'All histories of 4 actions (NewConf with 2 contents / no_color, DropConf + gc, SetGlobal, Render through a slot or '
+      'the global configuration, colour / no_color, whole / line by line) on the table kind and TLC simulations of 12 '
+      'actions over 6 object kinds (pretty-printed value, two tables sharing an enum field type, record formatter, '
+      'h-doc help, an object starting with an empty line).  Each event must equal the fresh-interpreter output for its '
+      '(object, configuration content, no_color), line-by-line = whole, stripped colour output = no_color output, no '
+      'ESC in no_color output.',
+      'Trusted: TLC, harness/sgr.py; objects and configuration contents fixed in harness/c10_objs.py; colours compared '
+      'as painted cells. The git history report is not among the rendered objects yet.',
+      'DESIGN.md section 4, C10')
+
 ALL = ['C%02d' % i for i in range(1, 21)]
 
 
